@@ -57,6 +57,17 @@ def run(ctx):
                     ctx.violation("c18-secret-in-log:" + leak.split(" in: ")[0], "a log line contains a secret: " + leak[:600], {"mode": mode, "leak": leak[:2000]})
                 all_msgs |= set(d["messages"] or [])
         ctx.evals += sum(1 for _ in open(infile))
+    # (a') proxied requests whose upstream round trip fails (the reverse proxy's error path), with and without the ID-token header
+    pre = ctx.path("logs-proxyerr")
+    vf.run_driver(["proxyerr", "-out", pre, "-seed", str(ctx.seed), "-tier", ctx.tier])
+    for line in open(pre + ".obs"):
+        d = json.loads(line)
+        total_entries += d["entries"]
+        ctx.evals += 1
+        for leak in d["leaks"] or []:
+            ctx.violation("c18-secret-in-log:" + leak.split(" in: ")[0], "a log line contains a secret: " + leak[:600],
+                          {"mode": "proxyerr", "config": {k: d[k] for k in ("redis", "sso", "id_token_header", "upstream_failure")}, "leak": leak[:2000]})
+        all_msgs |= set(d["messages"] or [])
     # (b) login / callback flows (PAR, private-key client authentication, every callback failure)
     for mode in ("login", "callback"):
         pre = ctx.path("logs-auth-" + mode)
